@@ -63,7 +63,7 @@ def edit_engines():
     # (not: disabling output f - a disabled variable keeps its value (C12), and the Function term of g reads it: by design the step then depends on history)
     mam["edits"] = [ed("weight", 1, 2, x=X("1/4"), ox=X("1/2")), ed("implication", 1, s="AlgebraicProduct", os="Minimum"), ed("conjunction", 1, s="AlgebraicProduct", os="Minimum"),
                     ed("aggregation", 1, s="BoundedSum", os="Maximum"), ed("defuzz-res", 1, n=4, on=8), ed("defuzz-cls", 1, s="MeanOfMaximum", os="Centroid"),
-                    ed("oterm-p", 1, 1, 2, x=X("3/8"), ox=X("1/4")), ed("iterm-p", 1, 1, 2, x=X("1/8"), ox=X("1/4")), ed("in-enabled", 2), ed("out-enabled", 1), ed("block-enabled", 1),
+                    ed("oterm-p", 1, 1, 2, x=X("3/8"), ox=X("1/4")), ed("iterm-p", 1, 1, 2, x=X("1/8"), ox=X("1/4")), ed("iterm-p", 2, 2, 1, x=X("5/8"), ox=X("1/2")), ed("in-enabled", 2), ed("out-enabled", 1), ed("block-enabled", 1),
                     ed("lock-previous", 1), ed("default", 1, x=X("1/8"), ox=list(NAN)), ed("in-lock-range", 1), ed("in-lock-range", 2), ed("in-max", 1, x=X("1/2"), ox=X("1"))]
     chained["edits"] = [ed("block-enabled", 1), ed("block-enabled", 2), ed("oterm-p", 1, 2, 2, x=X("5/8"), ox=X("1/2")), ed("aggregation", 1, s="AlgebraicSum", os="Maximum"), ed("out-enabled", 1)]
     sug["edits"] = [ed("oterm-p", 1, 4, 1, x=X("-1"), ox=X("1/2")), ed("oterm-p", 1, 4, 3, x=X("1"), ox=X("1/8")), ed("oterm-p", 1, 1, 1, x=X("1"), ox=X("-1/2")),
